@@ -48,7 +48,7 @@ ASSUMPTIONS = [
   'branch) or a shape outside the proof only (slices whose bounds are not plain integer expressions, widths >= 1024); '
   'F4, N2, N3, N5 were repaired in /repo and the model follows the repaired rules',
 ]
-RULE = ('streams: typed (type-directed terms, no injected defects), tmpseq (straight-line re-assignments of a temporary: literal/explicit/other width, then a narrower/equal/wider use), boolop (comparison results / Bool-typed terms as left and right operands against explicitly sized w-bit operands), desc (descending constant ranges whose loop variable meets a w-bit operand: first value fits / only the last fits), noisy (same with width/literal defects injected at each choice point), '
+RULE = ('streams: typed (type-directed terms, no injected defects), mixite (if-expressions with one implicit and one explicitly sized branch, both orders, in wider/equal/narrower explicit contexts, directly / through a temporary / nested), tmpseq (straight-line re-assignments of a temporary: literal/explicit/other width, then a narrower/equal/wider use), boolop (comparison results / Bool-typed terms as left and right operands against explicitly sized w-bit operands), desc (descending constant ranges whose loop variable meets a w-bit operand: first value fits / only the last fits), noisy (same with width/literal defects injected at each choice point), '
         'wild (unconstrained small terms, mostly rejected), one labelled stream per known hole (F12, N1, N4) and per repaired one (F4, N2, N3, N5: must now be rejected / clean), directed corpus; '
         'signal values boundary-biased; non-trivial = elaborated and checked by the real passes; distinct = distinct case tuple')
 
@@ -626,6 +626,18 @@ def corpus():
     mk(30, [[0, 3, 'in'], [1, 3, 'out']], [['for', 0, 8, 0, -1, [['asg', S(1, 3), ['bin', 'add', S(0, 3), ['lv', 0]]]]]]),
     mk(31, [[0, 4, 'out']], [['for', 0, 16, 0, -4, [['asg', S(0, 4), ['lv', 0]]]]]),
     mk(32, [[0, 3, 'in'], [1, 3, 'out']], [['for', 0, 8, 0, -1, [['ifs', ['cmp', 'eq', S(0, 3), ['lv', 0]], [['asg', S(1, 3), S(0, 3)]], []]]]]),
+    # mixed if-expressions (one literal branch, one explicitly sized branch) in a wider / equal context, both orders
+    mk(47, [[0, 1, 'in'], [1, 8, 'in'], [2, 16, 'out']], [['asg', S(2, 16), ['ite', S(0, 1), N(0), S(1, 8)]]]),
+    mk(48, [[0, 1, 'in'], [1, 8, 'in'], [2, 16, 'in'], [3, 16, 'out']],
+       [['asg', S(3, 16), ['bin', 'add', S(2, 16), ['ite', S(0, 1), N(0), S(1, 8)]]]]),
+    mk(49, [[0, 1, 'in'], [1, 8, 'in'], [2, 16, 'in'], [3, 1, 'out']],
+       [['asg', S(3, 1), ['cmp', 'eq', S(2, 16), ['ite', S(0, 1), N(3), S(1, 8)]]]]),
+    mk(50, [[0, 1, 'in'], [1, 8, 'in'], [2, 16, 'in'], [3, 16, 'out']],
+       [['tasg', 0, ['ite', S(0, 1), N(1), S(1, 8)]], ['asg', S(3, 16), ['bin', 'band', S(2, 16), ['tmp', 0]]]]),
+    mk(51, [[0, 1, 'in'], [1, 8, 'in'], [2, 8, 'out']], [['asg', S(2, 8), ['ite', S(0, 1), N(0), S(1, 8)]]]),
+    mk(52, [[0, 1, 'in'], [1, 8, 'in'], [2, 8, 'in'], [3, 8, 'out']],
+       [['asg', S(3, 8), ['bin', 'add', S(2, 8), ['ite', S(0, 1), S(1, 8), N(7)]]]]),
+    mk(53, [[0, 1, 'in'], [1, 8, 'in'], [2, 16, 'out']], [['asg', S(2, 16), ['ite', S(0, 1), S(1, 8), N(0)]]]),
     # straight-line re-assignment of a temporary: type and explicitness of the LAST assignment count
     mk(40, [[0, 1, 'in'], [1, 8, 'out']], [['tasg', 0, N(1)], ['tasg', 0, S(0, 1)], ['asg', S(1, 8), ['tmp', 0]]]),
     mk(41, [[0, 8, 'in'], [1, 8, 'in'], [2, 8, 'out']],
@@ -663,7 +675,7 @@ def run(ck):
       uid[0] += 1
       cs.append(f(uid[0]))
     process(ck, cs, nvec)
-  rounds = 30 if quick else 90
+  rounds = 27 if quick else 85
   per = 110 if quick else 300
   for _ in range(rounds):
     batch(per, lambda u: G.gen_typed(rng, u, 0.0, 'typed'))
@@ -672,6 +684,7 @@ def run(ck):
     batch(12 if quick else 30, lambda u: G.gen_desc(rng, u))
     batch(12 if quick else 30, lambda u: G.gen_boolop(rng, u))
     batch(14 if quick else 36, lambda u: G.gen_tmpseq(rng, u))
+    batch(14 if quick else 36, lambda u: G.gen_mixite(rng, u))
     for which in ('F4', 'F12', 'N1', 'N2', 'N3', 'N4', 'N5'):
       batch(6 if quick else 20, lambda u: G.gen_finding(rng, u, which))
     if len(ck.breaks) > 50 or sum(1 for v in ck.violations if v.signature.get('finding') not in FINDING_OF_STREAM.values()) > 20: break
